@@ -964,6 +964,7 @@ class ProgGen:
                 kinds.append("busy"); weights.append(2)
             if depth == 0 and self.opts.use_lists and not self.in_helper and not self.in_main:
                 kinds.append("list_straight"); weights.append(2)
+                kinds.append("list_copy_growth"); weights.append(1)
             if ctx.get("in_loop"):
                 kinds.append("brk"); weights.append(2)
             if self.helpers and not self.in_helper:
@@ -997,6 +998,8 @@ class ProgGen:
                 self.stmt_busy_wait(depth, env)
             elif kind == "list_straight":
                 self.stmt_list_straight(depth, env)
+            elif kind == "list_copy_growth":
+                self.stmt_list_copy_growth(depth, env)
             elif kind == "hoist_if":
                 self.stmt_hoist_if(depth, env)
             elif kind == "hoist_loop":
@@ -1058,6 +1061,15 @@ class ProgGen:
             lname = self.fresh("t")
             self.emit(1, f"{lname} = {self.expr(body_env, typ, 1, no_call=True)}")
             body_env[lname] = typ
+            if typ == "float" and self.chance(0.3):
+                # a later right-hand element reads an earlier target whose type changes in this very statement: all
+                # right-hand sides are evaluated (and typed) before any target is bound.  Straight-line helper code
+                # only (no hoisted declaration); the re-typed name is dead afterwards.
+                keep = self.fresh("t")
+                self.emit(1, f"{lname}, {keep} = {self.int_expr(body_env, 1, no_call=True)}, {lname}")
+                del body_env[lname]
+                body_env[keep] = "float"
+                lname = keep
             if "mon" in body_env and self.chance(0.5):
                 self.emit(1, f"mon.write({lname})")
         if writable is not None:
@@ -1275,6 +1287,28 @@ class ProgGen:
             if out[-1][1].split(" = ")[0] != out[-1][1]:
                 out.append((0, f"mon.write({out[-1][1].split(' = ')[0]})"))
         return out
+
+    def stmt_list_copy_growth(self, depth: int, env) -> None:
+        """A list re-assigned from another list that keeps growing (or shrinking) at run time: the copy must be sized
+        by the source's current length, not by the length the transpiler tracked.  Both lists are dead afterwards
+        (Python aliases them, the firmware copies - the difference is the subject of the list_alias finding)."""
+
+        r = self.rng
+        src, dst = self.fresh("xa"), self.fresh("ya")
+        n = r.randint(1, 4)
+        elem = r.choice(["int", "int", "float"]) if self.opts.use_floats else "int"
+        lit = (lambda: str(r.randint(0, 40))) if elem == "int" else (lambda: repr(r.randint(0, 40) + 0.5))
+        self.emit(depth, f"{src} = [{', '.join(lit() for _ in range(n))}]")
+        self.emit(depth, f"{dst} = [{', '.join(lit() for _ in range(n))}]")
+        k = self.fresh("k")
+        self.emit(depth, f"for {k} in range({r.randint(2, 3)}):")
+        # the copy comes first: with the append in front the transpiler's tracked lengths differ and it rejects the script
+        self.emit(depth + 1, f"{dst} = {src}")
+        self.emit(depth + 1, f"{src}.append({lit()})")
+        if r.random() < 0.4:
+            self.emit(depth + 1, f"{src}.append({lit()})")
+        if "mon" in env:
+            self.emit(depth, f'mon.write("copied")')
 
     def stmt_list_straight(self, depth: int, env) -> None:
         """Straight-line top-level list bookkeeping: the transpiler's tracked length must stay exact."""
